@@ -3,7 +3,7 @@
    DOT: [lex]/[parse] (S_Dot) are an independent lexer and recogniser of the DOT language;
    [compose_dot] (M_Dot) is the model of ComposeDot, tied to the code by correspondence.
    callgrind: [decode] (S_Callgrind) is a reference reader; [cg_lines] (M_Callgrind) the model. *)
-From PV Require Import M_Dot S_Dot S_DotClass L_Dot L_Dot2 L_Dot3 L_Dot4 M_Callgrind S_Callgrind L_Callgrind.
+From PV Require Import M_Dot S_Dot S_DotClass L_Dot L_Dot2 L_Dot3 L_Dot4 M_Callgrind S_Callgrind L_Callgrind L_CallgrindText.
 Open Scope string_scope.
 Open Scope Z_scope.
 
@@ -117,11 +117,20 @@ Print Assumptions callgrind_address_decodes.
 
 (* name compression: the reader's table follows the writer's; a name written a second time is a
    bare reference to the id it was defined with *)
-Theorem callgrind_name_defined_before_use : forall names t name,
-  trel names t ->
-  exists t', resolve t (fst (cg_name names name)) = Some (name, t') /\ trel (snd (cg_name names name)) t'.
-Proof. exact cg_name_resolve. Qed.
+Theorem callgrind_name_defined_before_use : forall (f : string -> string) names t name,
+  f "" = "" -> trel f names t ->
+  exists t', resolve t (map_ref f (fst (cg_name names name))) = Some (f name, t') /\ trel f (snd (cg_name names name)) t'.
+Proof. intros f names t name Hf. exact (cg_name_resolve f Hf names t name). Qed.
 Print Assumptions callgrind_name_defined_before_use.
+
+(* the TEXT: for ALL graphs whose names can be written on a line (no newline, not blank: outside
+   F20) and outside F11, parsing the text the model writes and reading it gives back the graph
+   (names up to the leading blanks a reader skips) *)
+Theorem callgrind_text_reads_back : forall sample_type unit ns,
+  names_ok sample_type unit ns = true -> nodes_addr_ok ns -> in_F11 ns = false ->
+  callgrind_ok ns (print_callgrind sample_type unit ns) = true.
+Proof. exact callgrind_text_reads_back_lemma. Qed.
+Print Assumptions callgrind_text_reads_back.
 
 (* F11 (ASSUMPTION: positions are relative to the last cost line): previous node at 0x1000 ...
    0x3000, caller at 0x3010, callee at 0x3000: the callee position is written against the
@@ -147,13 +156,6 @@ Theorem callgrind_newline_name_refuted :
   callgrind_ok w_cg_nl (print_callgrind "cpu" "ms" w_cg_nl) = false.
 Proof. vm_compute. repeat split; reflexivity. Qed.
 Print Assumptions callgrind_newline_name_refuted.
-
-(* the text level (render, then parse) is covered by evaluating [callgrind_ok] on every case;
-   the full statement, of which callgrind_reads_back is the proved part: *)
-Definition full_statement_callgrind_text : Prop :=
-  forall sample_type unit ns,
-    nodes_addr_ok ns -> in_F11 ns = false -> names_ok sample_type unit ns = true ->
-    callgrind_ok ns (print_callgrind sample_type unit ns) = true.
 
 (* ---------------- non-vacuity ---------------- *)
 Example hypotheses_satisfiable :
